@@ -42,6 +42,7 @@ type ConcCase struct {
 	Names   []string   `json:"names"`
 	Pre     [][]int    `json:"pre"` // initial content per graph
 	Absent  []int      `json:"absent,omitempty"` // names that do not exist when the clients start
+	SlowMS  int        `json:"slowms,omitempty"` // consumers of lookup results pause this many simulated milliseconds before each of the first two elements
 	Clients [][]ConcOp `json:"clients"`
 	Opts    []OptSpec  `json:"opts"`
 	Cap     int        `json:"cap"`
@@ -91,6 +92,9 @@ func (h *concHarness) Gen(r *Rand, tier string, clean bool) any {
 	if r.Bool() {
 		lo := Anchors[1+r.Intn(3)].UnixNano()
 		c.Opts = append(c.Opts, OptSpec{Lo: &lo})
+	}
+	if r.Chance(0.1) {
+		c.SlowMS = []int{50, 2000, 10000}[r.Intn(3)]
 	}
 	// second configuration: some clients talk BQL (server.BQL) to the same store
 	bql := r.Chance(0.35)
@@ -457,6 +461,8 @@ func (h *concHarness) Run(t *testing.T, ci any) *Outcome {
 			return ""
 		}}
 
+	drainPause = time.Duration(c.SlowMS) * time.Millisecond
+	defer func() { drainPause = 0 }()
 	sim.SetMapSeed(c.Sched | 1) // map iteration order is part of the schedule
 	res, bmsg := simRun(t, tape, cfg, func(r *sim.Runtime) {
 		st = memory.NewStore()
